@@ -15,11 +15,28 @@ MODES = ["int", "str", "stdstr", "nest", "elem", "elemrb", "swissint", "swissstr
 # initialisers forms `&nullptr->pages` without reading through it (memory_resource.h:228): UBSan's null
 # check would abort every run before the first operation.  Unrelated to C12; only that check is off.
 NO_NULL = ["-fno-sanitize=null"]
-REPO_CPP = ["babylon/reusable/*.cpp", "babylon/concurrent/*.cpp"]
+REPO_CPP = ["babylon/reusable/*.cpp", "babylon/reusable/patch/*.cpp", "babylon/concurrent/*.cpp"]
 
 
 def build():
     return build_exe("c12", ["harness/c12.cpp"], "asan", repo_cpp=REPO_CPP, extra_flags=NO_NULL)
+
+
+def build_pb():
+    """protobuf scene: compile /repo/test/proto/arena_example.proto with protoc (content-addressed under build/),
+    then the oracle harness harness/c12pb.cpp against it"""
+    proto = REPO / "test" / "proto" / "arena_example.proto"
+    if not proto.exists():
+        return None, "missing " + str(proto)
+    d = BUILD / "c12pb" / sha(proto.read_bytes())
+    cc = d / "arena_example.pb.cc"
+    if not cc.exists():
+        d.mkdir(parents=True, exist_ok=True)
+        r = sh(["protoc", "--cpp_out=" + str(d), "-I" + str(proto.parent), str(proto)])
+        if r.returncode != 0 or not cc.exists():
+            return None, "protoc failed: " + r.stdout[-800:]
+    rel = str(cc.relative_to(VERIF))
+    return build_exe("c12pb", ["harness/c12pb.cpp", rel], "asan", repo_cpp=REPO_CPP, extra_flags=NO_NULL + ["-I" + str(d)])
 
 
 def same(a, b):
@@ -338,6 +355,94 @@ def gen_string_case(rng, length, stats):
     return ops
 
 
+PB_LENS = [0, 1, 15, 16, 40, 300]
+
+
+def gen_pb_round(rng, stats):
+    """one business round on one protobuf message: a few setters; `small` rounds leave strings / sub-messages alone"""
+    kind = rng.choice(["big", "small", "sub", "rep", "mixed"])
+    ops = []
+    if kind in ("small", "mixed") or rng.random() < 0.3:
+        ops.append("set_p %d" % rng.randrange(1, 1000))
+        if rng.random() < 0.5:
+            ops.append("add_rp %d" % rng.randrange(1, 1000))
+    if kind in ("big", "mixed"):
+        ops.append("set_s %d" % rng.choice(PB_LENS))
+        if rng.random() < 0.5:
+            ops.append("set_ds %d" % rng.choice(PB_LENS))
+    if kind in ("sub", "big") or (kind == "mixed" and rng.random() < 0.5):
+        ops.append("m_set_s %d" % rng.choice(PB_LENS))
+        if rng.random() < 0.4:
+            ops.append("mm_set_s %d" % rng.choice(PB_LENS))
+        if rng.random() < 0.3:
+            ops.append("m_add_rs %d" % rng.choice(PB_LENS))
+        if rng.random() < 0.3:
+            ops.append("m_set_p %d" % rng.randrange(1, 1000))
+    if kind in ("rep", "big"):
+        for _ in range(rng.choice([1, 2, 5])):
+            ops.append(rng.choice(["add_rs %d", "add_rm %d"]) % rng.choice(PB_LENS))
+        for _ in range(rng.choice([0, 3, 9])):
+            ops.append("add_rp %d" % rng.randrange(1, 1000))
+    stats["pb_round_" + kind] = stats.get("pb_round_" + kind, 0) + 1
+    rng.shuffle(ops)
+    return ops
+
+
+def gen_pb_case(rng, stats):
+    """protobuf messages behind a SwissManager: every unit cycles through 1..3 round types (big / small /
+    sub-message set or unset / repeated), recreate cadence 1..5, so that re-creation boundaries fall after
+    every kind of round; once every round type has run, a repeated round must take nothing from the resource"""
+    interval = rng.choice([1, 2, 2, 3, 4, 5])
+    nunits = rng.choice([1, 1, 2])
+    ops = ["pnew %d" % interval] + ["pcreate"] * nunits
+    cycles = [[gen_pb_round(rng, stats) for _ in range(rng.choice([1, 2, 2, 3]))] for _ in range(nunits)]
+    warm = max(len(c) for c in cycles)
+    rounds = rng.choice([2 * interval + 2, 3 * interval + 3, 12])
+    stats["pb_interval_%d" % interval] = stats.get("pb_interval_%d" % interval, 0) + 1
+    for r in range(rounds):
+        check = r >= warm
+        if check:
+            ops.append("psnap")
+        for u in range(nunits):
+            ops += ["p %d %s" % (u, o) for o in cycles[u][r % len(cycles[u])]]
+        if check:
+            ops.append("pnoalloc")
+            stats["pb_repeated_rounds_checked"] = stats.get("pb_repeated_rounds_checked", 0) + 1
+        ops.append("pclear")
+    return ops
+
+
+def run_pb(ctx, exe, cases, dist):
+    """oracle-only scene (no Lean model behind protobuf): run, look for !ORACLE / crashes, minimise"""
+    def one(case):
+        return ctx.run_lines(exe, ["reset"] + case)
+    with concurrent.futures.ThreadPoolExecutor(max_workers=NPROC) as ex:
+        results = list(ex.map(one, cases))
+    ctx.cov["evaluations"] += len(cases)
+    seen = set()
+    for case, (io, rc, err) in zip(cases, results):
+        hit = [k for k, l in enumerate(io) if "!ORACLE" in l]
+        if rc == 0 and not hit:
+            continue
+        m0 = re.search(r"!ORACLE\((\w+)", " ".join(io))
+        kind = m0.group(1) if m0 else "crash"
+        if kind in seen:
+            continue
+        seen.add(kind)
+        prefix = case[:hit[0]] if hit else case      # io[0] answers `reset`, so io[k] answers case[k - 1]
+
+        def still(cand, kind=kind):
+            o, r, _ = ctx.run_lines(exe, ["reset"] + cand)
+            return r != 0 if kind == "crash" else any("!ORACLE(" + kind in l for l in o)
+        small = ctx.shrink(prefix, still, budget=200) if still(prefix) else case
+        o, r, e = ctx.run_lines(exe, ["reset"] + small)
+        text = "mode=pb\n%s\n# implementation output:\n%s\n%s" % (
+            "\n".join(small), "\n".join("#   " + l[:400] for l in o),
+            ("# harness stderr:\n#   " + e[-1500:].replace("\n", "\n#   ")) if r != 0 else "")
+        dist["oracle_failures"] += 1
+        ctx.failing_input("oracle:%s:protobuf-message" % kind, text)
+
+
 def load_corpus(mode):
     out = []
     d = VERIF / "corpus" / "C12"
@@ -486,6 +591,19 @@ def run(ctx):
                 break
         if ncorp:
             ctx.notes.append("corpus cases run first for mode %s: %d" % (mode, ncorp))
+    # ---- protobuf messages behind the manager (oracle only)
+    pbexe, pblog = build_pb()
+    if pbexe is None:
+        ctx.broke("correspondence", "harness/c12pb.cpp does not build against /repo", pblog[-800:])
+    else:
+        npb = (80 if ctx.quick else 800) * (4 if ctx.broken else 1)
+        pbcases = load_corpus("pb") + [gen_pb_case(ctx.rng, stats) for _ in range(npb)]
+        dist["scenes"]["protobuf"] = len(pbcases)
+        for c in pbcases:
+            if len(c) >= 10:
+                distinct.add(sha("pb\n" + "\n".join(c)))
+        ctx.log("protobuf scene cases", len(pbcases))
+        run_pb(ctx, pbexe, pbcases, dist)
     dist["boundaries_hit"] = stats
     ctx.cov["distribution"] = dist
     ctx.cov["distinct_nontrivial"] = len(distinct)
@@ -559,3 +677,4 @@ MANIFEST = {
 
 def warm():
     build()
+    build_pb()
